@@ -47,7 +47,7 @@ static int locate_out (program_t *);
  */
 void save_binary (program_t * prog, mem_block_t * includes, mem_block_t * patches) {
 
-  char file_name_buf[200];
+  char file_name_buf[PATH_MAX];
   char *file_name = file_name_buf;
   FILE *f;
   int i;
@@ -87,6 +87,8 @@ void save_binary (program_t * prog, mem_block_t * includes, mem_block_t * patche
         return;
     }
 
+  if (strlen (CONFIG_STR (__SAVE_BINARIES_DIR__)) + 1 + strlen (prog->name) >= sizeof (file_name_buf))
+    return; /* no room for the name of the binary: not saved */
   strcpy (file_name, CONFIG_STR (__SAVE_BINARIES_DIR__));
   if (file_name[0] == '/')
     file_name++;
@@ -414,8 +416,8 @@ sort_function_table (program_t * prog)
  */
 program_t *load_binary (const char *name) {
 
-  char file_name_buf[400];
-  char *buf, *iname, *file_name = file_name_buf, *file_name_two = &file_name_buf[200];
+  char file_name_buf[PATH_MAX], file_name_two_buf[PATH_MAX];
+  char *buf, *iname, *file_name = file_name_buf, *file_name_two = file_name_two_buf;
   int fd;
   FILE *f;
   int i;
@@ -434,6 +436,8 @@ program_t *load_binary (const char *name) {
 
   if (!CONFIG_STR(__SAVE_BINARIES_DIR__))
     return OUT_OF_DATE;
+  if (strlen (CONFIG_STR (__SAVE_BINARIES_DIR__)) + 1 + strlen (name) >= sizeof (file_name_buf))
+    return OUT_OF_DATE; /* save_binary() never writes a binary under such a name */
   sprintf (file_name, "%s/%s", CONFIG_STR (__SAVE_BINARIES_DIR__), name);
   if (file_name[0] == '/')
     file_name++;
@@ -627,13 +631,19 @@ program_t *load_binary (const char *name) {
        * Check times against inherited source.  If saved binary of
        * inherited prog exists, check against it also.
        */
-      sprintf (file_name_two, "%s/%s", CONFIG_STR (__SAVE_BINARIES_DIR__), buf);
-      if (file_name_two[0] == '/')
-        file_name_two++;
-      len = strlen (file_name_two);
-      file_name_two[len - 1] = 'b';
+      file_name_two = file_name_two_buf;
+      if (strlen (CONFIG_STR (__SAVE_BINARIES_DIR__)) + 1 + strlen (buf) >= sizeof (file_name_two_buf))
+        file_name_two = 0; /* no binary can exist under such a name */
+      else
+        {
+          sprintf (file_name_two, "%s/%s", CONFIG_STR (__SAVE_BINARIES_DIR__), buf);
+          if (file_name_two[0] == '/')
+            file_name_two++;
+          len = strlen (file_name_two);
+          file_name_two[len - 1] = 'b';
+        }
       if (check_times (mtime, buf) <= 0 ||
-          check_times (mtime, file_name_two) == 0)
+          (file_name_two && check_times (mtime, file_name_two) == 0))
         {			/* ok if -1 */
           opt_trace (TT_COMPILE|1, "out of date (inherited source is newer).");
           fclose (f);
